@@ -3,6 +3,7 @@ From UV Require Import Lib.Base Model.Signal.
 From Coq Require Import Sorting.Sorted.
 
 Local Open Scope nat_scope.
+Opaque batch_size.
 
 (* ------------------------------------------------------------------ *)
 (* 0. list helpers                                                      *)
@@ -44,9 +45,12 @@ Lemma get_wclqs s v h : get (with_clqs s v) h = get s h. Proof. reflexivity. Qed
 Lemma get_wcb s v h : get (with_cbcount s v) h = get s h. Proof. reflexivity. Qed.
 Lemma get_wrace s v h : get (with_race s v) h = get s h. Proof. reflexivity. Qed.
 Lemma get_log s e h : get (log s e) h = get s h. Proof. reflexivity. Qed.
-Ltac gs_in H := repeat first [rewrite get_wtr in H | rewrite get_wtree in H | rewrite get_wdisp in H | rewrite get_wpipes in H | rewrite get_log in H | rewrite get_wbatch in H | rewrite get_wclqs in H | rewrite get_wcb in H | rewrite get_wrace in H].
+Lemma get_spipe s l p h : get (set_pipe s l p) h = get s h. Proof. reflexivity. Qed.
+Lemma get_sdisp s l p h : get (set_disp s l p) h = get s h. Proof. reflexivity. Qed.
+Lemma get_sclq s l p h : get (set_clq s l p) h = get s h. Proof. reflexivity. Qed.
+Ltac gs_in H := repeat first [rewrite get_wtr in H | rewrite get_wtree in H | rewrite get_wdisp in H | rewrite get_wpipes in H | rewrite get_log in H | rewrite get_spipe in H | rewrite get_sdisp in H | rewrite get_sclq in H | rewrite get_wbatch in H | rewrite get_wclqs in H | rewrite get_wcb in H | rewrite get_wrace in H].
 Ltac gs := repeat first [rewrite get_wtr | rewrite get_wtree | rewrite get_wdisp | rewrite get_wpipes
-                        | rewrite get_log | rewrite get_wbatch | rewrite get_wclqs | rewrite get_wcb | rewrite get_wrace].
+                        | rewrite get_log | rewrite get_spipe | rewrite get_sdisp | rewrite get_sclq | rewrite get_wbatch | rewrite get_wclqs | rewrite get_wcb | rewrite get_wrace].
 
 Lemma get_upd_same s h f : h < length (hs s) -> get (upd_h s h f) h = f (get s h).
 Proof. intros; unfold get; ssimpl; apply nth_upd_same; auto. Qed.
@@ -1507,4 +1511,254 @@ Proof.
     destruct (Nat.eq_dec x h) as [->|Hn]; [rewrite G; simpl; auto | rewrite Go; auto].
   - intros x Hx. rewrite Pe. apply Z. gs_in Hx.
     destruct (Nat.eq_dec x h) as [->|Hn]; [rewrite G in Hx; auto | rewrite Go in Hx; auto].
+Qed.
+
+Lemma start_shape fx s h sig os : sig <> 0 -> sig <> h_signum (get s h) ->
+  let s1 := sig_stop s h in
+  let r := sig_start fx s h sig os in
+  (fst r = s1 /\ snd r = UV_EINVAL) \/
+  (exists s3 flag, snd r = 0%Z /\ hs s3 = hs s1 /\ tree s3 = tree s1 /\ pipe_of s3 = pipe_of s1 /\
+     batch s3 = batch s1 /\ clq_of s3 = clq_of s1 /\
+     fst r = with_tree (upd_h s3 h (h_set_started sig flag))
+               (tree_insert (hs (upd_h s3 h (h_set_started sig flag))) h (tree (upd_h s3 h (h_set_started sig flag))))).
+Proof.
+  intros E0 E1. cbv zeta. unfold sig_start.
+  destruct (Nat.eqb_spec sig 0); [congruence|].
+  destruct (Nat.eqb_spec sig (h_signum (get s h))); [congruence|].
+  rewrite stop_if.
+  set (s1 := sig_stop s h).
+  set (need := match first_handle s1 sig with None => true | Some f => negb os && h_oneshot (get s1 f) end).
+  destruct (need && negb (sigok sig)); [left; auto|].
+  right.
+  set (s2 := if need then set_disp s1 sig (Handler os) else s1).
+  set (s3 := if fired_oneshot_on s2 sig then with_race s2 true else s2).
+  exists s3, (if fx then os else h_oneshot (get s3 h) || os). cbn [fst snd].
+  repeat split; unfold s3, s2; destruct (fired_oneshot_on _ _), need; reflexivity.
+Qed.
+
+Lemma sinv_start fx s h sig os : usable s h = true -> SInv s -> SInv (fst (sig_start fx s h sig os)).
+Proof.
+  intros U [C K]. apply usable_spec in U. destruct U as [Ul Uc].
+  pose proof (start_spec fx s h sig os) as S.
+  destruct S as [S0 S1 S2|S0 S1 S2 S3|S0 S1 S2 S3 S4|S0 S1 S2 S3 S4 S5 S6 S7 S8 S9].
+  - rewrite S1. split; auto.
+  - rewrite S2. split; auto.
+  - rewrite S2. split; [apply score_stop; auto | apply sclosing_stop; auto].
+  - split.
+    + destruct (start_shape fx s h sig os S0 S1) as [[_ X]|(s3&flag&_&e1&e2&e3&e4&e5&e6)].
+      { rewrite S2 in X. discriminate. }
+      rewrite e6.
+      assert (C3 : SCore s3).
+      { eapply score_frame with (s := sig_stop s h); auto; try congruence.
+        - intros x. rewrite (get_hs_eq (sig_stop s h) s3) by auto. apply same_acc_refl.
+        - apply score_stop; auto. }
+      apply score_insert; auto.
+      * rewrite (get_hs_eq (sig_stop s h) s3) by auto. apply stop_signum.
+      * rewrite e1, stop_len. auto.
+    + intros x Hx. destruct (Nat.eq_dec x h) as [->|Hn].
+      * rewrite S5 in Hx by auto. simpl in Hx. congruence.
+      * rewrite S3 in * by auto. auto.
+Qed.
+
+Lemma score_write_msg sig s y : sig <> 0 -> SCore s -> In y (tree s) -> h_closed (get s y) = false ->
+  SCore (write_msg sig s y).
+Proof.
+  intros Hs C Hy Hc. unfold write_msg.
+  assert (Hl : y < length (hs s)).
+  { apply signum_valid. apply (s_tree _ C). auto. }
+  set (s1 := upd_h s y h_set_fired).
+  assert (C1 : SCore s1) by (apply score_upd_acc; auto; intros; repeat split; auto).
+  assert (G1 : get s1 y = h_set_fired (get s y)) by (apply get_upd_same; auto).
+  assert (L1 : length (hs s1) = length (hs s)) by apply len_upd_h.
+  change (h_loop (get s y)) with (h_loop (h_set_fired (get s y))). rewrite <- G1.
+  destruct (_ <? _); auto.
+  set (l := h_loop (get s1 y)).
+  set (s2 := set_pipe s1 l (pipe_of s1 l ++ [(y, sig)])).
+  destruct C1 as [T So C' Q P B N Z].
+  assert (G2 : forall x, get s2 x = get s1 x) by reflexivity.
+  assert (G3 : get (upd_h s2 y h_inc_caught) y = h_inc_caught (get s1 y)).
+  { rewrite get_upd_same; [rewrite G2; auto | change (hs s2) with (hs s1); lia]. }
+  assert (Go : forall x, x <> y -> get (upd_h s2 y h_inc_caught) x = get s1 x).
+  { intros. rewrite get_upd_other by auto. apply G2. }
+  assert (Ac : forall x, same_key (get s1 x) (get (upd_h s2 y h_inc_caught) x) /\
+                         h_closing (get (upd_h s2 y h_inc_caught) x) = h_closing (get s1 x) /\
+                         h_closed (get (upd_h s2 y h_inc_caught) x) = h_closed (get s1 x) /\
+                         h_dispatched (get (upd_h s2 y h_inc_caught) x) = h_dispatched (get s1 x)).
+  { intros x. destruct (Nat.eq_dec x y) as [->|Hn]; [rewrite G3 | rewrite Go by auto]; repeat split. }
+  assert (Pe : forall x, pending (upd_h s2 y h_inc_caught) x = pending s1 x + (if x =? y then 1 else 0)).
+  { intros x. unfold pending. destruct (Ac x) as ((_&_&lp)&_). rewrite lp.
+    change (batch (upd_h s2 y h_inc_caught)) with (batch s1).
+    change (pipe_of (upd_h s2 y h_inc_caught)) with (fupd (pipe_of s1) l (pipe_of s1 l ++ [(y, sig)])).
+    unfold fupd. destruct (Nat.eqb_spec (h_loop (get s1 x)) l) as [El|El].
+    - rewrite El, cnt_app. simpl. rewrite (Nat.eqb_sym y x). lia.
+    - destruct (Nat.eqb_spec x y) as [->|]; [exfalso; apply El; reflexivity | lia]. }
+  split.
+  - intros x. destruct (Ac x) as ((a&_)&_). rewrite a. apply T.
+  - eapply sorted_ext; [|exact So]. intros x _. apply Ac.
+  - intros x. destruct (Ac x) as (_&a&b&_). rewrite a, b. auto.
+  - intros l' x Hx. destruct (Ac x) as (_&a&_). rewrite a. eauto.
+  - intros l' m Hm. destruct (Ac (fst m)) as ((_&_&a)&_). rewrite a.
+    rewrite len_upd_h. change (length (hs s2)) with (length (hs s1)).
+    change (pipe_of (upd_h s2 y h_inc_caught)) with (fupd (pipe_of s1) l (pipe_of s1 l ++ [(y, sig)])) in Hm.
+    unfold fupd in Hm. destruct (Nat.eqb_spec l' l) as [->|]; auto.
+    apply in_app_iff in Hm. destruct Hm as [Hm|[<-|[]]]; auto. cbn [fst]. split; [reflexivity|rewrite L1; exact Hl].
+  - intros m Hm. rewrite len_upd_h. apply B. exact Hm.
+  - intros x Hx. rewrite len_upd_h in Hx. change (length (hs s2)) with (length (hs s1)) in Hx.
+    rewrite Pe. destruct (Ac x) as (_&_&_&d). rewrite d.
+    destruct (Nat.eqb_spec x y) as [->|Hn].
+    + rewrite G3. simpl. rewrite N by auto. lia.
+    + rewrite Go by auto. rewrite N by auto. lia.
+  - intros x Hx. rewrite Pe. destruct (Ac x) as (_&_&b&_). rewrite b in Hx.
+    destruct (Nat.eqb_spec x y) as [->|Hn].
+    + rewrite G1 in Hx. simpl in Hx. congruence.
+    + rewrite Z by auto. reflexivity.
+Qed.
+
+Lemma score_fold_write sig ys : sig <> 0 -> forall s, SCore s ->
+  (forall y, In y ys -> In y (tree s) /\ h_closed (get s y) = false) ->
+  SCore (fold_left (write_msg sig) ys s).
+Proof.
+  intros Hs. induction ys as [|y ys IH]; intros s C H; simpl; auto.
+  apply IH.
+  - apply score_write_msg; auto; apply H; simpl; auto.
+  - intros z Hz. destruct (H z) as [a b]; [simpl; auto|].
+    destruct (write_msg_misc sig s y) as (_&_&t&_). rewrite t. split; auto.
+    destruct (write_msg_core sig s y z) as (_&_&_&_&_&_&c). rewrite c. auto.
+Qed.
+
+Lemma sinv_deliver s sig : sig <> 0 -> SInv s -> SInv (fst (deliver s sig)).
+Proof.
+  intros Hs [C K]. split.
+  - unfold deliver. destruct (disp_of s sig) as [|rh]; simpl; auto.
+    unfold handler.
+    set (s1 := if rh then set_disp s sig Default else s).
+    assert (E : forall x, get s1 x = get s x) by (intros; unfold s1; destruct rh; reflexivity).
+    assert (C1 : SCore s1).
+    { eapply score_frame with (s := s); auto; unfold s1; destruct rh; try reflexivity;
+        intros; apply same_acc_refl. }
+    apply score_fold_write; auto.
+    intros y Hy. apply targets_in in Hy. destruct Hy as [a b]. split; auto.
+    destruct (h_closed (get s1 y)) eqn:Ec; auto.
+    rewrite E in *. apply (s_closed _ C) in Ec. apply K in Ec. congruence.
+  - intros x Hx. destruct (deliver_core s sig x) as (_&b&_&_&_&c&_). rewrite b. rewrite c in Hx. auto.
+Qed.
+
+Lemma sinv_close s h : usable s h = true -> SInv s -> SInv (sig_close s h).
+Proof.
+  intros U [C K]. apply usable_spec in U. destruct U as [Ul Uc].
+  unfold sig_close.
+  set (s1 := upd_h s h h_set_closing).
+  set (s2 := sig_stop s1 h).
+  assert (C2 : SCore s2).
+  { apply score_stop. apply score_upd_acc; auto. intros; repeat split; auto. }
+  assert (Hc : h_closing (get s2 h) = true).
+  { destruct (stop_fields s1 h) as (_&_&_&_&e&_). cbv zeta in e. unfold s2. rewrite e.
+    unfold s1. rewrite get_upd_same by auto. reflexivity. }
+  split.
+  - destruct C2 as [T So C' Q P B N Z]. split; auto.
+    intros l x Hx. gs. ssimpl. unfold fupd in Hx.
+    destruct (l =? _); eauto. destruct Hx as [<-|Hx]; eauto.
+  - intros x. gs. unfold s2. apply sclosing_stop.
+    intros y Hn Hy. unfold s1 in *. rewrite get_upd_other in * by auto. auto.
+Qed.
+
+Lemma sinv_finish s h sig r : SInv s -> batch s = (h, sig) :: r -> SInv (msg_finish s h r).
+Proof.
+  intros [C K] Hb. unfold msg_finish.
+  set (s2 := upd_h (with_batch s r) h h_inc_dispatched).
+  assert (Hl : h < length (hs s)) by (apply (s_batchv _ C (h, sig)); rewrite Hb; simpl; auto).
+  assert (G : get s2 h = h_inc_dispatched (get s h)) by (unfold s2; rewrite get_upd_same by auto; reflexivity).
+  assert (Go : forall x, x <> h -> get s2 x = get s x) by (intros; unfold s2; rewrite get_upd_other by auto; reflexivity).
+  assert (Ac : forall x, same_key (get s x) (get s2 x) /\ h_closing (get s2 x) = h_closing (get s x) /\
+                         h_closed (get s2 x) = h_closed (get s x) /\ h_caught (get s2 x) = h_caught (get s x)).
+  { intros x. destruct (Nat.eq_dec x h) as [->|Hn]; [rewrite G | rewrite Go by auto]; repeat split. }
+  assert (Pe : forall x, pending s x = pending s2 x + (if x =? h then 1 else 0)).
+  { intros x. unfold pending. destruct (Ac x) as ((_&_&lp)&_). rewrite lp.
+    change (pipe_of s2) with (pipe_of s). change (batch s2) with r. rewrite Hb. simpl.
+    rewrite (Nat.eqb_sym h x). lia. }
+  assert (C2 : SCore s2).
+  { destruct C as [T So C' Q P B N Z]. split.
+    - intros x. destruct (Ac x) as ((a&_)&_). rewrite a. apply T.
+    - eapply sorted_ext; [|exact So]. intros x _. apply Ac.
+    - intros x. destruct (Ac x) as (_&a&b&_). rewrite a, b. auto.
+    - intros l x Hx. destruct (Ac x) as (_&a&_). rewrite a. eauto.
+    - intros l m Hm. destruct (Ac (fst m)) as ((_&_&a)&_). rewrite a. unfold s2. rewrite len_upd_h. auto.
+    - intros m Hm. unfold s2. rewrite len_upd_h. apply B. rewrite Hb. simpl; auto.
+    - intros x Hx. unfold s2 in Hx. rewrite len_upd_h in Hx. change (length (hs (with_batch s r))) with (length (hs s)) in Hx.
+      specialize (N x Hx). rewrite Pe in N. destruct (Ac x) as (_&_&_&d). rewrite d.
+      destruct (Nat.eqb_spec x h) as [->|Hn].
+      + rewrite G. simpl. lia.
+      + rewrite Go by auto. lia.
+    - intros x Hx. destruct (Ac x) as (_&_&b&_). rewrite b in Hx. specialize (Z x Hx).
+      rewrite Pe in Z. lia. }
+  assert (K2 : SClosing s2).
+  { intros x Hx. destruct (Ac x) as ((a&_)&b&_). rewrite a. rewrite b in Hx. auto. }
+  destruct (h_oneshot (get s2 h)); [|split; auto].
+  split; [apply score_stop; auto | apply sclosing_stop; auto].
+Qed.
+
+Lemma sinv_take s l : SInv s -> batch s = [] -> SInv (take_batch s l).
+Proof.
+  intros [C K] Hb. split; [|exact K].
+  destruct C as [T So C' Q P B N Z]. unfold take_batch.
+  assert (Pe : forall x, pending (with_batch (set_pipe s l (skipn batch_size (pipe_of s l))) (firstn batch_size (pipe_of s l))) x = pending s x).
+  { intros x. unfold pending. gs. ssimpl. rewrite Hb. simpl. unfold fupd.
+    destruct (Nat.eqb_spec (h_loop (get s x)) l) as [->|Hn].
+    - rewrite <- (firstn_skipn batch_size (pipe_of s l)) at 3. rewrite cnt_app. lia.
+    - rewrite (cnt_zero x (firstn _ _)); [lia|].
+      intros m Hm E. apply In_firstn in Hm. apply P in Hm. destruct Hm as [a _]. congruence. }
+  split; auto.
+  - intros l' m Hm. gs. ssimpl. unfold fupd in Hm. destruct (l' =? l) eqn:E; auto.
+    apply Nat.eqb_eq in E. subst l'. apply In_skipn in Hm. auto.
+  - intros m Hm. ssimpl. apply In_firstn in Hm. apply P in Hm. tauto.
+  - intros x Hx. rewrite Pe. auto.
+  - intros x Hx. rewrite Pe. auto.
+Qed.
+
+Lemma sinv_init s l : SInv s -> SInv (with_hs s (hs s ++ [new_handle l])).
+Proof.
+  intros [C K].
+  assert (G : forall x, get (with_hs s (hs s ++ [new_handle l])) x = get s x \/
+                        (x = length (hs s) /\ get (with_hs s (hs s ++ [new_handle l])) x = new_handle l) \/
+                        (get (with_hs s (hs s ++ [new_handle l])) x = dflt_h /\ get s x = dflt_h)).
+  { intros x. destruct (Nat.lt_trichotomy x (length (hs s))) as [H|[H|H]].
+    - left. apply get_app_old; auto.
+    - right; left. subst. split; auto. apply get_app_new.
+    - right; right. split; [apply get_app_oob; auto | apply get_oob; lia]. }
+  assert (Ac : forall x, same_acc (get s x) (get (with_hs s (hs s ++ [new_handle l])) x) \/
+                         (x = length (hs s) /\ get (with_hs s (hs s ++ [new_handle l])) x = new_handle l)).
+  { intros x. destruct (G x) as [E|[E|[E1 E2]]]; auto; left; [rewrite E | rewrite E1, E2]; apply same_acc_refl. }
+  assert (D : forall x, length (hs s) <= x -> get s x = dflt_h) by (intros; apply get_oob; auto).
+  assert (Pn : forall m lst, (forall m', In m' lst -> fst m' < length (hs s)) -> cnt (length (hs s)) lst = 0).
+  { intros _ lst H. apply cnt_zero. intros m Hm E. apply H in Hm. lia. }
+  split.
+  - destruct C as [T So C' Q P B N Z]. split; ssimpl.
+    + intros x. destruct (Ac x) as [(a&_)|(a&b)]; [rewrite a; apply T|].
+      rewrite b. simpl. rewrite T. rewrite D by lia. simpl. tauto.
+    + eapply sorted_ext; [|exact So]. intros x Hx. destruct (Ac x) as [a|(a&b)]; [apply same_acc_key; auto|].
+      apply T in Hx. rewrite D in Hx by lia. simpl in Hx. congruence.
+    + intros x. destruct (Ac x) as [(_&_&_&_&_&a&b)|(a&b)]; [rewrite b; auto | rewrite b; simpl; discriminate].
+    + intros l' x Hx. destruct (Ac x) as [(_&_&_&_&_&a&b)|(a&b)]; eauto.
+      apply Q in Hx. rewrite D in Hx by lia. discriminate.
+    + intros l' m Hm. rewrite app_length. simpl. destruct (P l' m Hm) as [a b]. split; [|lia].
+      rewrite get_app_old by auto. auto.
+    + intros m Hm. rewrite app_length. simpl. apply B in Hm. lia.
+    + intros x Hx. rewrite app_length in Hx. simpl in Hx.
+      destruct (Ac x) as [(_&_&a&b&c&_)|(a&b)].
+      * rewrite b, c. assert (x < length (hs s)).
+        { destruct (Nat.eq_dec x (length (hs s))) as [->|]; [|lia]. exfalso.
+          rewrite get_app_new in a. simpl in a. rewrite D in a by lia. simpl in a.
+          (* same loop by accident: the handle is still the new one *) 
+          clear - Hx. lia. }
+        rewrite N by auto. f_equal. unfold pending. ssimpl. rewrite a. reflexivity.
+      * rewrite b. simpl. subst x. unfold pending. ssimpl. rewrite b. simpl.
+        rewrite (Pn (0,0)), (Pn (0,0)); auto. intros m' Hm'. apply P in Hm'. tauto.
+    + intros x Hx. destruct (Ac x) as [(_&_&a&_&_&_&b)|(a&b)].
+      * rewrite b in Hx. unfold pending. ssimpl. rewrite a. apply Z; auto.
+      * rewrite b in Hx. discriminate.
+  - intros x Hx. destruct (Ac x) as [(a&_&_&_&_&_)|(a&b)].
+    + rewrite a. apply K. destruct (G x) as [E|[[_ E]|[E1 E2]]]; [rewrite E in Hx; auto| |].
+      * rewrite E in Hx. discriminate.
+      * rewrite E1 in Hx. discriminate.
+    + rewrite b. reflexivity.
 Qed.
